@@ -7,6 +7,8 @@ import (
 	"math"
 	"reflect"
 	"strconv"
+	"strings"
+	"sync"
 )
 
 // C07: purity and determinism.
@@ -30,6 +32,10 @@ func deepCopy(x interface{}) interface{} {
 func runPure(c Case) interface{} {
 	ast := pugDoc(asList(c["doc"]))
 	data := c["data"]
+	goData, _ := c["go_data"].(bool)
+	if goData {
+		data = reviveGo(data) // {"__go": ...} markers become Go values a JSON file cannot carry
+	}
 	before := deepCopy(data)
 	eng, err := newEngine(EngineSpec{Files: map[string]string{"t": ast}})
 	if err != nil {
@@ -47,7 +53,7 @@ func runPure(c Case) interface{} {
 	rep := outs[0] == outs[1] && outs[1] == outs[2]
 	return J{"class": outs[0].Class, "out": outs[0].Out, "msg": outs[0].Msg, "repeat_equal": rep,
 		"engine2_equal":  second.Class == outs[0].Class && second.Out == outs[0].Out,
-		"data_unchanged": reflect.DeepEqual(before, deepCopy(data)) && reflect.DeepEqual(before, data)}
+		"data_unchanged": reflect.DeepEqual(before, deepCopy(data)) && (goData || reflect.DeepEqual(before, data)) && orderedIntact()}
 }
 
 func runHistory(c Case) interface{} {
@@ -84,6 +90,37 @@ func runHistory(c Case) interface{} {
 	return J{"class": "ok", "outs": outs, "alone": alone}
 }
 
+// OrderedAttrs: string-keyed Go map with a display order
+type OrderedAttrs map[string]interface{}
+
+var (
+	orderedMu     sync.Mutex
+	orderedShared = map[string][]string{}
+	orderOf       sync.Map // map pointer -> its (shared) order slice
+)
+
+// Order implements pugjs's sortable contract
+func (m OrderedAttrs) Order() []string {
+	if o, ok := orderOf.Load(reflect.ValueOf(m).Pointer()); ok {
+		return o.([]string)
+	}
+	return nil
+}
+
+// orderedIntact: nobody wrote behind the end of an order slice the data handed out (its spare capacity is the caller's memory)
+func orderedIntact() bool {
+	orderedMu.Lock()
+	defer orderedMu.Unlock()
+	for _, sh := range orderedShared {
+		for _, x := range sh[len(sh):cap(sh)] {
+			if x != "" {
+				return false
+			}
+		}
+	}
+	return true
+}
+
 // reviveGo turns the markers {"__go":"leafy"} / {"__go":"nan"} / {"__go":"inf"} inside JSON data into Go values a JSON file cannot
 // carry: a struct with getter methods, and numbers encoding/json cannot marshal
 func reviveGo(x interface{}) interface{} {
@@ -106,6 +143,27 @@ func reviveGo(x interface{}) interface{} {
 				Name   string
 				Count  int
 			}{Name: "n", Count: 2}
+		case "ordered":
+			// a Go map type with a display order (pugjs's `Order() []string` contract). The order slice is ONE slice per distinct order,
+			// built with append (spare capacity) and handed out to every value - as a type with a fixed display order does.
+			m := OrderedAttrs{}
+			for k, e := range asJ(v["m"]) {
+				m[k] = reviveGo(e)
+			}
+			var ord []string
+			for _, o := range asList(v["order"]) {
+				ord = append(ord, o.(string))
+			}
+			orderedMu.Lock()
+			key := strings.Join(ord, "\x00")
+			sh, ok := orderedShared[key]
+			if !ok {
+				sh = append(make([]string, 0, len(ord)+6), ord...)
+				orderedShared[key] = sh
+			}
+			orderedMu.Unlock()
+			orderOf.Store(reflect.ValueOf(m).Pointer(), sh)
+			return m
 		case "nan":
 			return math.NaN()
 		case "inf":
@@ -208,6 +266,12 @@ func genC07(r *Rng, n int, tier string, emit func(Case)) {
 			p := pool[rr.Intn(len(pool))]
 			emit(Case{"kind": "pure", "doc": p.doc, "data": p.data, "bucket": "pure"})
 		case 2:
+			if rr.Chance(1, 4) {
+				// an ordered Go map (display order of its own, possibly listing only some keys) that the template extends and walks
+				j := orderedJob(rr, rr.Intn(3))
+				emit(Case{"kind": "pure", "doc": j["doc"], "data": j["data"], "go_data": true, "bucket": "ordered-map"})
+				continue
+			}
 			emit(Case{"kind": "pure", "doc": mutatingDoc(rr), "data": mutData(rr), "bucket": "mutate"})
 		default:
 			k := rr.Range(2, 4)
@@ -215,6 +279,8 @@ func genC07(r *Rng, n int, tier string, emit func(Case)) {
 			for j := 0; j < k; j++ {
 				if rr.Chance(1, 3) {
 					steps = append(steps, J{"doc": mutatingDoc(rr), "data": mutData(rr)})
+				} else if rr.Chance(1, 5) {
+					steps = append(steps, orderedJob(rr, j))
 				} else {
 					p := pool[rr.Intn(len(pool))]
 					steps = append(steps, J{"doc": p.doc, "data": p.data})
